@@ -294,3 +294,222 @@ fn c04_dedup_forwards_each_seq_once() {
     }
     core::mem::forget((req_full, req_partials));
 }
+
+// ---------------------------------------------------------------------------------------------
+// compute_available_needs, one block of its per-actor loop body at a time (quick tier).  The
+// blocks communicate only through `other_haves` (what the peer fully holds) and `needs` (the
+// output, append-only), so: haves correct ∧ each block correct for ANY haves ⇒ the body is.
+// ---------------------------------------------------------------------------------------------
+fn set_of_mask<T: Ord + Clone + StepLite>(mask: u32, lo: u64, hi: u64, mk: fn(u64) -> T) -> RangeInclusiveSet<T> {
+    let mut s = RangeInclusiveSet::new();
+    let mut v = lo;
+    let mut run: Option<u64> = None;
+    while v <= hi + 1 {
+        let on = v <= hi && mask & (1 << v) != 0;
+        match (run, on) {
+            (None, true) => run = Some(v),
+            (Some(st), false) => {
+                s.insert(mk(st)..=mk(v - 1));
+                run = None;
+            }
+            _ => {}
+        }
+        v += 1;
+    }
+    s
+}
+fn mask_of_set(s: &RangeInclusiveSet<CrsqlDbVersion>) -> u32 {
+    let mut m = 0u32;
+    for r in s.iter() {
+        assert!(r.start() <= r.end() && r.end().0 <= N);
+        m |= bits(r.start().0, r.end().0);
+    }
+    m
+}
+
+/// what the peer "has" of an actor = 1..=head minus its needed ranges minus its partial versions
+#[kani::proof]
+fn c04_part_peer_haves() {
+    let their = any_side();
+    kani::assume(their.head >= 1);
+    let mut theirs = SyncStateV1 { actor_id: PEER, ..Default::default() };
+    put(&mut theirs, A, &their, false);
+    let haves = other_haves_of(&theirs, &A, &CrsqlDbVersion(their.head));
+    let expect = bits(1, their.head) & !their.need & !(if their.pv != 0 { 1 << their.pv } else { 0 });
+    assert!(mask_of_set(&haves) == expect, "C04: the set of versions the peer holds is miscomputed");
+    kani::cover!(their.need != 0 && their.pv != 0, "peer with gaps and a partial version");
+    core::mem::forget((theirs, haves));
+}
+
+/// needed versions: exactly (our need ∩ peer haves) is requested, as well-formed Full ranges
+#[kani::proof]
+fn c04_part_needed_versions_requested_iff_peer_has_them() {
+    let our_need: u32 = kani::any();
+    kani::assume(our_need & !bits(1, N) == 0);
+    let haves_mask: u32 = kani::any();
+    kani::assume(haves_mask & !bits(1, N) == 0);
+    let mut ours = SyncStateV1 { actor_id: SELF, ..Default::default() };
+    if our_need != 0 {
+        ours.need.insert(A, runs(our_need, 1, N, CrsqlDbVersion));
+    }
+    let haves = set_of_mask(haves_mask, 1, N, CrsqlDbVersion);
+    let mut needs: HashMap<ActorId, Vec<SyncNeedV1>> = HashMap::new();
+    ours.request_needed_versions_the_peer_has(&A, &haves, &mut needs);
+    let req = fold_requests(&needs, A, N);
+    assert!(req.partial_entries == 0);
+    assert!(our_need & haves_mask & !req.full == 0, "C04: a version the peer holds and we lack is not requested");
+    assert!(req.full & !(our_need & haves_mask) == 0, "C04: a version requested that we do not need or the peer does not hold");
+    kani::cover!(req.full != 0 && req.full != our_need, "part of our need is available");
+    core::mem::forget((ours, haves, needs));
+}
+
+/// versions beyond our head: (our head, peer head] is requested iff the peer is ahead
+#[kani::proof]
+fn c04_part_versions_beyond_our_head_requested() {
+    let (our_head, their_head): (u64, u64) = (kani::any(), kani::any());
+    kani::assume(our_head <= N && 1 <= their_head && their_head <= N);
+    let mut ours = SyncStateV1 { actor_id: SELF, ..Default::default() };
+    if our_head != 0 {
+        ours.heads.insert(A, CrsqlDbVersion(our_head));
+    }
+    let mut needs: HashMap<ActorId, Vec<SyncNeedV1>> = HashMap::new();
+    ours.request_versions_beyond_our_head(&A, &CrsqlDbVersion(their_head), &mut needs);
+    let req = fold_requests(&needs, A, their_head);
+    assert!(req.full == bits(our_head + 1, their_head), "C04: versions beyond our head up to the peer's head are not requested exactly");
+    kani::cover!(req.full != 0, "peer ahead");
+    kani::cover!(needs.get(&A).is_none(), "peer not ahead");
+    core::mem::forget((ours, needs));
+}
+
+/// partially held version: the peer holds it completely → all our missing sequences;
+/// the peer holds it partially → exactly our missing ∩ what it has (nothing if that is empty)
+fn part_missing_sequences(peer_partial_too: bool) {
+    let pv: u64 = kani::any();
+    kani::assume(1 <= pv && pv <= N);
+    let our_missing: u32 = kani::any();
+    kani::assume(our_missing != 0 && our_missing & !bits(0, M) == 0);
+    let mut ours = SyncStateV1 { actor_id: SELF, ..Default::default() };
+    let mut m = HashMap::new();
+    m.insert(CrsqlDbVersion(pv), runs(our_missing, 0, M, CrsqlSeq));
+    ours.partial_need.insert(A, m);
+    let mut theirs = SyncStateV1 { actor_id: PEER, ..Default::default() };
+    let haves_mask: u32 = kani::any();
+    kani::assume(haves_mask & !bits(1, N) == 0);
+    let their_missing: u32 = kani::any();
+    if peer_partial_too {
+        kani::assume(their_missing != 0 && their_missing & !bits(0, M) == 0);
+        kani::assume(haves_mask & (1 << pv) == 0); // a partially held version is not in haves
+        let mut tm = HashMap::new();
+        tm.insert(CrsqlDbVersion(pv), runs(their_missing, 0, M, CrsqlSeq));
+        theirs.partial_need.insert(A, tm);
+    }
+    let haves = set_of_mask(haves_mask, 1, N, CrsqlDbVersion);
+    let mut needs: HashMap<ActorId, Vec<SyncNeedV1>> = HashMap::new();
+    ours.request_missing_sequences(&theirs, &A, &haves, &mut needs);
+    let req = fold_requests(&needs, A, N);
+    assert!(req.full == 0);
+    if haves_mask & (1 << pv) != 0 {
+        assert!(req.partial_entries == 1 && req.partial_version == pv, "C04: no partial request although the peer holds the version");
+        assert!(req.partial_seqs == our_missing, "C04: partial request differs from our missing sequences");
+    } else if peer_partial_too {
+        let top = |m: u32| 31 - m.leading_zeros() as u64;
+        let end = if top(their_missing) > top(our_missing) { top(their_missing) } else { top(our_missing) };
+        let peer_seqs = bits(0, end) & !their_missing;
+        assert!(our_missing & peer_seqs & !req.partial_seqs == 0, "C04: a missing sequence the peer holds is not requested");
+        assert!(req.partial_seqs & !(our_missing & peer_seqs) == 0, "C04: sequences requested that we are not missing or the peer does not hold");
+        assert!(req.partial_entries == if our_missing & peer_seqs != 0 { 1 } else { 0 }, "C04: empty or duplicate partial request");
+    } else {
+        assert!(req.partial_entries == 0, "C04: partial request for a version the peer does not hold");
+    }
+    kani::cover!(req.partial_entries == 1, "partial request made");
+    core::mem::forget((ours, theirs, haves, needs));
+}
+#[kani::proof]
+fn c04_part_missing_sequences_peer_complete_or_absent() {
+    part_missing_sequences(false);
+}
+#[kani::proof]
+fn c04_part_missing_sequences_peer_partial_too() {
+    part_missing_sequences(true);
+}
+
+// client-side de-duplication, inductive: from ANY already-requested set, one more need
+#[kani::proof]
+fn c04_dedup_step_versions() {
+    let already: u32 = kani::any();
+    kani::assume(already & !bits(1, N) == 0);
+    let mut req_full: HashMap<ActorId, RangeInclusiveSet<CrsqlDbVersion>> = HashMap::new();
+    if kani::any() {
+        req_full.insert(A, set_of_mask(already, 1, N, CrsqlDbVersion));
+    } else {
+        kani::assume(already == 0);
+    }
+    let mut req_partials: HashMap<(ActorId, CrsqlDbVersion), RangeInclusiveSet<CrsqlSeq>> = HashMap::new();
+    let (a, b): (u64, u64) = (kani::any(), kani::any());
+    kani::assume(1 <= a && a <= b && b <= N);
+    let out = dedup_request(SyncNeedV1::Full { versions: CrsqlDbVersion(a)..=CrsqlDbVersion(b) }, A, &mut req_full, &mut req_partials);
+    let mut now = 0u32;
+    if let Some(list) = &out {
+        assert!(!list.is_empty(), "C04: an empty request list is forwarded");
+        for n in list.iter() {
+            match n {
+                SyncNeedV1::Full { versions } => {
+                    assert!(versions.start() <= versions.end());
+                    let m = bits(versions.start().0, versions.end().0);
+                    assert!(m & now == 0, "C04: a version forwarded twice in one request");
+                    now |= m;
+                }
+                _ => {
+                    assert!(false, "C04: de-dup changed the need kind")
+                }
+            }
+        }
+    }
+    assert!(now == bits(a, b) & !already, "C04: forwarded versions are not exactly the needed ones not yet requested (a needed version dropped, or one requested twice)");
+    match req_full.get(&A) {
+        Some(s) => {
+            assert!(mask_of_set(s) == already | bits(a, b), "C04: the requested-set does not record what was forwarded")
+        }
+        None => {
+            assert!(false, "C04: requested-set lost")
+        }
+    }
+    kani::cover!(now != 0 && now != bits(a, b), "partly requested before");
+    kani::cover!(out.is_none(), "nothing left to request");
+    core::mem::forget((req_full, req_partials, out));
+}
+#[kani::proof]
+fn c04_dedup_step_sequences() {
+    let already: u32 = kani::any();
+    kani::assume(already & !bits(0, M) == 0);
+    let mut req_full: HashMap<ActorId, RangeInclusiveSet<CrsqlDbVersion>> = HashMap::new();
+    let mut req_partials: HashMap<(ActorId, CrsqlDbVersion), RangeInclusiveSet<CrsqlSeq>> = HashMap::new();
+    if kani::any() {
+        req_partials.insert((A, CrsqlDbVersion(5)), set_of_mask(already, 0, M, CrsqlSeq));
+    } else {
+        kani::assume(already == 0);
+    }
+    let mask: u32 = kani::any();
+    kani::assume(mask != 0 && mask & !bits(0, M) == 0);
+    let out = dedup_request(SyncNeedV1::Partial { version: CrsqlDbVersion(5), seqs: runs(mask, 0, M, CrsqlSeq) }, A, &mut req_full, &mut req_partials);
+    let mut now = 0u32;
+    if let Some(list) = &out {
+        assert!(list.len() == 1);
+        match &list[0] {
+            SyncNeedV1::Partial { version, seqs } => {
+                assert!(version.0 == 5 && !seqs.is_empty(), "C04: an empty partial request is forwarded");
+                for s in seqs.iter() {
+                    let m = bits(s.start().0, s.end().0);
+                    assert!(s.start() <= s.end() && m & now == 0);
+                    now |= m;
+                }
+            }
+            _ => {
+                assert!(false, "C04: de-dup changed the need kind")
+            }
+        }
+    }
+    assert!(now == mask & !already, "C04: forwarded sequences are not exactly the needed ones not yet requested");
+    kani::cover!(now != 0 && now != mask, "partly requested before");
+    core::mem::forget((req_full, req_partials, out));
+}
